@@ -446,6 +446,15 @@ func layer2(ctx *xplor.Ctx, store string, n, id int) string {
 	var aid0 types.AccountID
 	copy(aid0[:], tk.Key(NQ-1))
 	sdb2.PutState(aid0, &types.State{Nonce: 9, Balance: []byte{9}})
+	// every account of the content changes after `root`: a proof at the historical root must still
+	// carry the state the account had there
+	for i, v := range c {
+		if v != 0 {
+			var aid types.AccountID
+			copy(aid[:], tk.Key(i))
+			sdb2.PutState(aid, &types.State{Nonce: uint64(20 + i), Balance: []byte{byte(20 + i)}})
+		}
+	}
 	if err := sdb2.Update(); err != nil {
 		return err.Error()
 	}
